@@ -854,6 +854,7 @@ func runFSCleanup(c *core.Ctx) {
 			// (1) the loop is left on the first failure
 			h := loopHeader(rm.Block())
 			stopOK := true
+			failSilent := false
 			tested := false
 			if h != nil {
 				for _, b := range fn.Blocks {
@@ -893,8 +894,37 @@ func runFSCleanup(c *core.Ctx) {
 					if !walk(b.Succs[1-nilSucc], map[*ssa.BasicBlock]bool{}) {
 						stopOK = false
 					}
+					// and the failure is reported: no nil return is reachable from the failure side (the caller clears the
+					// repository's exists flag on a nil result)
+					var nilRet func(bb *ssa.BasicBlock, seen map[*ssa.BasicBlock]bool) bool
+					nilRet = func(bb *ssa.BasicBlock, seen map[*ssa.BasicBlock]bool) bool {
+						if seen[bb] || bb == h {
+							return false
+						}
+						seen[bb] = true
+						if ifi2 := an.BlockIf(bb); ifi2 != nil {
+							if ex, _, trueSucc, ok := an.ErrIsTest(ifi2); ok && ex == ssa.Value(rm) {
+								return nilRet(bb.Succs[1-trueSucc], seen)
+							}
+						}
+						if len(bb.Instrs) > 0 {
+							if ret, ok := bb.Instrs[len(bb.Instrs)-1].(*ssa.Return); ok {
+								return retErrNil(ret)
+							}
+						}
+						for _, s := range bb.Succs {
+							if nilRet(s, seen) {
+								return true
+							}
+						}
+						return false
+					}
+					if nilRet(b.Succs[1-nilSucc], map[*ssa.BasicBlock]bool{}) {
+						failSilent = true
+					}
 				}
 			}
+			c.Check(!failSilent, "failure-reported:"+name, rm.Pos(), "a removal that failed makes the cleanup return an error: %v — otherwise the caller takes the repository for removed (clears its exists flag) while its blobs, index or layout are still there: reads answer ‘repo does not exist’ and the next manifest push is refused", !failSilent)
 			c.Check(h != nil && tested && stopOK, "stop-on-failure:"+name, rm.Pos(), "a failing removal (other than ‘does not exist’) leaves the cleanup loop: %v — otherwise index.json and oci-layout are removed while content that could not be removed stays behind", h != nil && tested && stopOK)
 			// (4) completed loop => nil, flag cleared on nil
 			okNil := !selfDir
